@@ -1319,9 +1319,10 @@ fn run_insn(sc: &Sc, ctx: &mut Ctx) {
             if prop == "C09" {
                 ctx.probe("excluded_crashing_forms");
             } else {
-                // call-site granularity; except under the 0x67 prefix (where every memory form dies in
-                // the same place) the form is part of the signature, so a new crashing form is not masked
-                let which = if sc.shape.starts_with("addr32") { "addr32_shape".to_string() } else { sc.code_name.clone() };
+                // call-site granularity, and the form is part of the signature, so a new crashing form is not
+                // masked (memory operands under the 0x67 prefix used to share one signature while every one of
+                // them died in mem_addr; since the repair of that they are judged per form like the others)
+                let which = sc.code_name.clone();
                 ctx.dev("C06", format!("C06|crash_site|{}|{which}", p.class()), format!("{} [{}] {} ({}) fault={} panicked: {} at {}", sc.code_name, sc.shape, ins, sc.bytes, sc.fault, p.msg, p.loc));
             }
         }
